@@ -734,7 +734,7 @@ fn value_ops(w: &Watch, t: &Tr, v: &Value) {
     let e = venc(v);
     for style in ['S', 'C', 'P'] {
         let op = format!("print {} {}", style, e);
-        let o = guarded(w, &op, || hex(print_style(style, v).as_bytes())).unwrap_or_else(|_| "panic".into());
+        let o = guarded(w, &op, || format!("text {}", hex(print_style(style, v).as_bytes()))).unwrap_or_else(|_| "panic".into());
         t.op(op, o);
     }
     for style in ['S', 'C', 'P'] {
@@ -747,15 +747,18 @@ fn value_ops(w: &Watch, t: &Tr, v: &Value) {
 fn cycle(w: &Watch, op: &str, style: char, v: &Value) -> String {
     let r1 = guarded(w, op, || parse_one(&print_style(style, v)));
     match r1 {
-        Err(()) => "panic -".into(),
-        Ok(Err(())) => "err -".into(),
+        Err(()) => "panicked panic -".into(),
+        Ok(Err(())) => "unparsed err -".into(),
         Ok(Ok(v1)) => {
             let r2 = guarded(w, op, || parse_one(&print_style(style, &v1)));
             let s2 = match r2 {
                 Err(()) => "panic".to_string(),
                 Ok(r) => res_of(r),
             };
-            format!("ok:{} {}", venc(&v1), s2)
+            {
+                let s1 = format!("ok:{}", venc(&v1));
+                format!("{} {} {}", if s1 == s2 { "stable" } else { "changed" }, s1, s2)
+            }
         }
     }
 }
@@ -1092,10 +1095,13 @@ fn text_case(rng: &mut Rng, w: &Watch, t: &Tr) {
 fn parse_op(w: &Watch, op: &str, bytes: &[u8]) -> String {
     match std::str::from_utf8(bytes) {
         Ok(s) => match guarded(w, op, || parse_one(s)) {
-            Ok(r) => res_of(r),
-            Err(()) => "panic".into(),
+            Ok(r) => {
+                let r = res_of(r);
+                format!("{} {}", if r == "err" { "err" } else { "ok" }, r)
+            }
+            Err(()) => "panic panic".into(),
         },
-        Err(_) => "err".into(),
+        Err(_) => "err err".into(),
     }
 }
 
@@ -1107,7 +1113,7 @@ fn exec(w: &Watch, t: &Tr, op: &str) {
         ["print", s, e] => match vdec(e) {
             Some(v) => {
                 let st = s.chars().next().unwrap();
-                guarded(w, op, || hex(print_style(st, &v).as_bytes())).unwrap_or_else(|_| "panic".into())
+                guarded(w, op, || format!("text {}", hex(print_style(st, &v).as_bytes()))).unwrap_or_else(|_| "panic".into())
             }
             None => "bad-op".into(),
         },
